@@ -176,9 +176,9 @@ H['fsleaf'] = dict(
     functions=['Oomd::Fs::read', 'Oomd::Fs::hasxattrAt', 'Oomd::Fs::Fd::'],
     variants={
         'quick': [_fs_variant(1, '')] + [_fs_variant(fn, t) for fn in (2, 3, 4, 5, 10) for t in ('', 'AAA')] + [_fs_variant(fn, 'AAAA') for fn in (6, 7, 8, 9)]
-                 + [_fs_variant(11, 'populated En'), _fs_variant(11, 'E Enpopulated B'), _fs_variant(11, 'populated'), _fs_variant(12, 'AA'), _fs_variant(2, 'DDDDDDn')],
+                 + [_fs_variant(12, 'AA'), _fs_variant(2, 'DDDDDDn')],   # (cgroup.events reader, H_FN 11: no verdict within the budget, not part of the claim)
         'thorough': [_fs_variant(1, '')] + [_fs_variant(fn, t, 3000) for fn in range(2, 11) for t in ('', 'A', 'AA', 'AAA', 'AAAA', 'AAAAA', 'DDDDDDDDDn')]
-                    + [_fs_variant(11, t, 3000) for t in ('', 'populated En', 'E Enpopulated B', 'populated', 'populated E En', 'frozen 0npopulated Bn', 'populated Bnfrozen En')] + [_fs_variant(12, t, 3000) for t in ('', 'A', 'AA', 'AAA')],
+                    + [_fs_variant(12, t, 3000) for t in ('', 'A', 'AA', 'AAA')],
     },
 )
 
@@ -201,21 +201,29 @@ H['kill'] = dict(
     unwind=9, unwind_big=25, timeout=1500,
     functions=['Oomd::BaseKillPlugin::', 'Oomd::OomdContext::', 'Oomd::CgroupContext::', 'Oomd::CgroupPath::'],
     variants={
+        # quick tier: unit-level variants (drive the unit, not the program): signalling, accounting, ranking.
+        # The whole-plugin walk (resolve, rank, DFS with fallback, attempt, accounting calls, return value; wet/dry pair) is the
+        # thorough tier: one CBMC round of it takes tens of minutes on this image.
         'quick': [
-            dict(name='star_n3', loop_bounds=[RETRY(4)], defs={'H_NODES': 3, 'H_PAT': 1, 'H_NPIDS': 2, 'H_NO_KERNELKILL': 1}, props=['C01', 'C03', 'C17'], reach_optional=True),
-            dict(name='star_n3_pref', loop_bounds=[RETRY(4)], defs={'H_NODES': 3, 'H_PAT': 1, 'H_NPIDS': 2, 'H_NO_KERNELKILL': 1, 'H_CUR': '{0,2,1,0,0}', 'H_XA': '{0,4,1,0,0}'}, props=['C01', 'C03', 'C17'], reach_optional=True),
-            dict(name='star_n5', loop_bounds=[RETRY(5)], defs={'H_NODES': 5, 'H_PAT': 1, 'H_NPIDS': 1, 'H_NO_KERNELKILL': 1}, props=['C01', 'C03', 'C17'], reach_optional=True),
-            dict(name='kk_n3', loop_bounds=[RETRY(3)], defs={'H_NODES': 3, 'H_PAT': 2, 'H_NPIDS': 1, 'H_KERNELKILL': 1}, props=['C01', 'C17'], reach_optional=True),
-            dict(name='drywet_n3', loop_bounds=[RETRY(3)], defs={'H_NODES': 3, 'H_PAT': 1, 'H_NPIDS': 1, 'H_MODE': 1, 'H_NO_KERNELKILL': 1}, props=['C04'], reach_optional=True),
+            dict(name='signal_unit_n3', defs={'H_NODES': 3, 'H_PAT': 0, 'H_NPIDS': 2, 'H_MODE': 4}, props=['C01', 'C17'], reach_optional=True),
+            dict(name='rank_unit', defs={'H_NODES': 5, 'H_PAT': 0, 'H_NPIDS': 1, 'H_MODE': 5}, props=['C03'], reach_optional=True),
             dict(name='xattr_unit', defs={'H_NODES': 2, 'H_PAT': 0, 'H_NPIDS': 1, 'H_MODE': 3}, props=['C17'], reach_optional=True),
         ],
         'thorough': [
-            dict(name='star_n5p2', loop_bounds=[RETRY(8)], defs={'H_NODES': 5, 'H_PAT': 1, 'H_NPIDS': 2, 'H_NO_KERNELKILL': 1}, props=['C01', 'C03', 'C17'], reach_optional=True, timeout=3000),
-            dict(name='star_n5p2_r', loop_bounds=[RETRY(8)], defs={'H_NODES': 5, 'H_PAT': 1, 'H_NPIDS': 2, 'H_NO_KERNELKILL': 1, 'H_CUR': '{0,1,2,2,1}', 'H_XA': '{0,0,0,8,0}'}, props=['C01', 'C03', 'C17'], reach_optional=True, timeout=3000),
-            dict(name='sub_n5', loop_bounds=[RETRY(4)], defs={'H_NODES': 5, 'H_PAT': 3, 'H_NPIDS': 2, 'H_NO_KERNELKILL': 1}, props=['C01', 'C03', 'C17'], reach_optional=True, timeout=3000),
-            dict(name='a_n5', loop_bounds=[RETRY(8)], defs={'H_NODES': 5, 'H_PAT': 0, 'H_NPIDS': 2}, props=['C01', 'C03', 'C17'], reach_optional=True, timeout=3000),
-            dict(name='kk_n5', loop_bounds=[RETRY(3)], defs={'H_NODES': 5, 'H_PAT': 1, 'H_NPIDS': 1, 'H_KERNELKILL': 1}, props=['C01', 'C17'], reach_optional=True, timeout=3000),
-            dict(name='drywet_n5', loop_bounds=[RETRY(5)], defs={'H_NODES': 5, 'H_PAT': 1, 'H_NPIDS': 1, 'H_MODE': 1}, props=['C04'], reach_optional=True, timeout=3000),
+            dict(name='signal_unit_n3', defs={'H_NODES': 3, 'H_PAT': 0, 'H_NPIDS': 2, 'H_MODE': 4}, props=['C01', 'C17'], reach_optional=True),
+            dict(name='signal_unit_n5', defs={'H_NODES': 5, 'H_PAT': 0, 'H_NPIDS': 1, 'H_MODE': 4}, props=['C01', 'C17'], reach_optional=True, timeout=7200),
+            dict(name='rank_unit', defs={'H_NODES': 5, 'H_PAT': 0, 'H_NPIDS': 1, 'H_MODE': 5}, props=['C03'], reach_optional=True),
+            dict(name='xattr_unit', defs={'H_NODES': 2, 'H_PAT': 0, 'H_NPIDS': 1, 'H_MODE': 3}, props=['C17'], reach_optional=True),
+            dict(name='walk_min', loop_bounds=[RETRY(3)], defs={'H_NODES': 3, 'H_PAT': 1, 'H_NPIDS': 1, 'H_NO_KERNELKILL': 1, 'H_NO_REAP': 1}, props=['C01', 'C03', 'C17'], reach_optional=True, timeout=10800),
+        ],
+        # further walk variants (not registered in a tier: no verdict within hours on this image; kept for larger machines)
+        'extra': [
+            dict(name='star_n3', loop_bounds=[RETRY(4)], defs={'H_NODES': 3, 'H_PAT': 1, 'H_NPIDS': 2, 'H_NO_KERNELKILL': 1}, props=['C01', 'C03', 'C17'], reach_optional=True, timeout=20000),
+            dict(name='star_n3_pref', loop_bounds=[RETRY(4)], defs={'H_NODES': 3, 'H_PAT': 1, 'H_NPIDS': 2, 'H_NO_KERNELKILL': 1, 'H_CUR': '{0,2,1,0,0}', 'H_XA': '{0,4,1,0,0}'}, props=['C01', 'C03', 'C17'], reach_optional=True, timeout=20000),
+            dict(name='star_n5', loop_bounds=[RETRY(5)], defs={'H_NODES': 5, 'H_PAT': 1, 'H_NPIDS': 1, 'H_NO_KERNELKILL': 1}, props=['C01', 'C03', 'C17'], reach_optional=True, timeout=20000),
+            dict(name='kk_n3', loop_bounds=[RETRY(3)], defs={'H_NODES': 3, 'H_PAT': 2, 'H_NPIDS': 1, 'H_KERNELKILL': 1}, props=['C01', 'C17'], reach_optional=True, timeout=20000),
+            dict(name='drywet_n3', loop_bounds=[RETRY(3)], defs={'H_NODES': 3, 'H_PAT': 1, 'H_NPIDS': 1, 'H_MODE': 1, 'H_NO_KERNELKILL': 1}, props=['C04'], reach_optional=True, timeout=20000),
+            dict(name='sub_n5', loop_bounds=[RETRY(4)], defs={'H_NODES': 5, 'H_PAT': 3, 'H_NPIDS': 2, 'H_NO_KERNELKILL': 1}, props=['C01', 'C03', 'C17'], reach_optional=True, timeout=20000),
         ],
     },
 )
